@@ -28,8 +28,14 @@ type Prog struct {
 	Spec      *Spec
 	RepoDir   string
 	modsets   map[*ssa.Function]map[string]bool
-	implCache map[string][]*ssa.Function
+	implCache map[string][]implTarget
 	allTypes  []types.Type
+	fvAll     map[*ssa.Function]bool
+	fvBound   map[*ssa.Function]bool
+	fnIDs     map[string]int
+	VerifDir  string
+	tbl       *Tables
+	tblErr    error
 }
 
 func funcKey(fn *ssa.Function) string {
@@ -81,7 +87,7 @@ func LoadProg(repoDir string, patterns []string, specDirs []string) (*Prog, erro
 		}
 	}
 	P := &Prog{Fset: fset, Pkgs: pkgs, SSA: prog, Funcs: map[string]*ssa.Function{}, PkgByPath: map[string]*types.Package{},
-		PkgByName: map[string][]*types.Package{}, Spec: NewSpec(), RepoDir: repoDir, implCache: map[string][]*ssa.Function{}}
+		PkgByName: map[string][]*types.Package{}, Spec: NewSpec(), RepoDir: repoDir, implCache: map[string][]implTarget{}}
 	packages.Visit(pkgs, nil, func(p *packages.Package) {
 		if p.Types != nil {
 			P.PkgByPath[p.PkgPath] = p.Types
